@@ -136,6 +136,7 @@ inline int run_main(const Options& o, const std::string& prop_id, const std::vec
       CaseResult r;
       if (iso) { size_t c; r = run_isolated(p, rf.draws, nullptr, c); }
       else { ReplayChooser ch(rf.draws); r = p.body(ch, nullptr); if (p.leakcheck && r.fail.empty() && leaked_now()) r.fail = "memory obtained during this case was never released (LeakSanitizer)"; }
+      if (getenv("VF_PRINT_CASE")) printf("CASE %s\n", r.json.c_str());
       if (!r.fail.empty()) { printf("REPLAY-FAIL %s/%s: %s\n", prop_id.c_str(), p.name.c_str(), r.fail.c_str()); return 1; }
       printf("REPLAY-PASS %s/%s\n", prop_id.c_str(), p.name.c_str());
       return 0;
